@@ -73,6 +73,9 @@ type FuncContract struct {
 	Covers   []Clause
 	File     string
 	Line     int
+	Emits    []EmitClause // exactly one event per call (externs)
+	MayEmit  []string     // events this function may cause any number of times
+	Havocs   bool // callee may change any heap location (but causes only the events it declares)
 	NoSafe   bool // do not generate implicit safety obligations (never used to hide failures; only for extern)
 	Bounded  bool
 }
@@ -88,6 +91,19 @@ type Lemma struct {
 	Line   int
 }
 
+type EventDecl struct {
+	Pkg    string
+	Name   string
+	Params []SpecParam
+}
+
+type EmitClause struct {
+	Event string
+	Args  []ast.Expr
+	Src   string
+	Line  int
+}
+
 type UFunc struct {
 	Pkg    string
 	Name   string
@@ -98,6 +114,7 @@ type UFunc struct {
 }
 
 type ContractSet struct {
+	Events  map[string]*EventDecl
 	UFuncs  map[string]*UFunc
 	Axioms  []*Lemma
 	Funcs   map[string]*FuncContract // key: pkgpath + "." + name
@@ -213,7 +230,7 @@ func loadContracts(root string) (*ContractSet, error) {
 	if err != nil {
 		return nil, err
 	}
-	cs := &ContractSet{Funcs: map[string]*FuncContract{}, Specs: map[string]*SpecFunc{}, PkgDirs: map[string]string{}, UFuncs: map[string]*UFunc{}}
+	cs := &ContractSet{Funcs: map[string]*FuncContract{}, Specs: map[string]*SpecFunc{}, PkgDirs: map[string]string{}, UFuncs: map[string]*UFunc{}, Events: map[string]*EventDecl{}}
 	for _, f := range files {
 		if err := cs.parseFile(root, f); err != nil {
 			return nil, err
@@ -300,6 +317,8 @@ func (cs *ContractSet) parseFile(root, file string) error {
 					fc.Trusted = true
 				case "bounded":
 					fc.Bounded = true
+				case "havocs":
+					fc.Havocs = true
 				default:
 					return bad(c, "unknown func attribute %q", o)
 				}
@@ -422,6 +441,45 @@ func (cs *ContractSet) parseFile(root, file string) error {
 			sf := &SpecFunc{Rec: kw == "rec", Pkg: pkg, Name: name, Params: params, Result: resT, Body: e, Src: src, File: file, Line: c.line}
 			cs.Specs[pkg+"."+name] = sf
 			cur = nil
+		case "event":
+			op := strings.Index(rest, "(")
+			cp := strings.LastIndex(rest, ")")
+			if op < 0 || cp < op {
+				return bad(c, "bad event declaration")
+			}
+			params, err := parseSpecParams(rest[op+1 : cp])
+			if err != nil {
+				return bad(c, "%v", err)
+			}
+			name := strings.TrimSpace(rest[:op])
+			cs.Events[name] = &EventDecl{Pkg: pkg, Name: name, Params: params}
+			cur = nil
+		case "emits":
+			if cur == nil {
+				return bad(c, "emits outside func")
+			}
+			e, err := parseE(c, rest)
+			if err != nil {
+				return err
+			}
+			ce, ok := e.(*ast.CallExpr)
+			if !ok {
+				return bad(c, "emits needs event(args)")
+			}
+			id, ok := ce.Fun.(*ast.Ident)
+			if !ok {
+				return bad(c, "emits needs event(args)")
+			}
+			cur.Emits = append(cur.Emits, EmitClause{Event: id.Name, Args: ce.Args, Src: rest, Line: c.line})
+		case "mayemit":
+			if cur == nil {
+				return bad(c, "mayemit outside func")
+			}
+			for _, n := range strings.Split(rest, ",") {
+				if n = strings.TrimSpace(n); n != "" {
+					cur.MayEmit = append(cur.MayEmit, n)
+				}
+			}
 		case "ufunc":
 			// ufunc name(params) R   — uninterpreted specification function
 			op := strings.Index(rest, "(")
